@@ -34,17 +34,28 @@ CONSTANTS DlmA,        \* first delimiter character
 WDlm == IF DlmB = 0 THEN <<DlmA>> ELSE <<DlmA, DlmB>>
 NoneCell == <<1114112>>                 \* a None cell (one code beyond Unicode; text cells are Seq(Nat))
 IsNone(c) == c = NoneCell
+\* a list-valued cell (e.g. an ARRAY_AGG result): <<ListTag>> \o e1 \o <<ElemSep>> \o e2 ...; elements are text or NoneCell
+ListTag == 1114113
+ElemSep == 1114114
+IsList(c) == c # <<>> /\ c[1] = ListTag
+Elems(c) == IF Len(c) = 1 THEN <<>> ELSE SplitPlain(Tail(c), 1, <<ElemSep>>)
+ListOf(es) == <<ListTag>> \o JoinBy(es, <<ElemSep>>)
+\* list elements are joined with '|' (with ';' when '|' is the delimiter)
+SubDelim(d) == IF d = <<124>> THEN <<59>> ELSE <<124>>
 SepOf(ls) == CASE ls = "LF" -> <<LF>> [] ls = "CRLF" -> <<CR, LF>> [] OTHER -> <<CR>>
 
-Norm(c) == IF IsNone(c) THEN <<>> ELSE c
-NormRec(rec) == [k \in 1..Len(rec) |-> Norm(rec[k])]
-HasNone(rec) == \E k \in 1..Len(rec) : IsNone(rec[k])
+Norm(c, d) == IF IsNone(c) THEN <<>>
+              ELSE IF IsList(c) THEN LET es == Elems(c) IN JoinBy([k \in 1..Len(es) |-> IF IsNone(es[k]) THEN <<>> ELSE es[k]], SubDelim(d))
+              ELSE c
+NormRec(rec, d) == [k \in 1..Len(rec) |-> Norm(rec[k], d)]
+\* a None anywhere - as a cell or inside a list cell - is written as an empty string and must be reported
+HasNone(rec) == \E k \in 1..Len(rec) : IsNone(rec[k]) \/ (IsList(rec[k]) /\ \E m \in 1..Len(Elems(rec[k])) : IsNone(Elems(rec[k])[m]))
 
 CountOcc(s, d) == Len(SplitPlain(s, 1, d)) - 1          \* non-overlapping occurrences (str.count)
 
 \* the line written for one record (Err for monocolumn with several fields)
 LineOf(rec, d, policy) ==
-    LET r == NormRec(rec) IN
+    LET r == NormRec(rec, d) IN
     CASE policy = "quoted"     -> JoinBy([k \in 1..Len(r) |-> QuoteField(r[k], d)], d)
       [] policy = "quoted_rfc" -> JoinBy([k \in 1..Len(r) |-> RfcQuoteField(r[k], d)], d)
       [] policy = "monocolumn" -> IF Len(r) >= 1 THEN r[1] ELSE <<>>
@@ -52,7 +63,7 @@ LineOf(rec, d, policy) ==
 MonoError(rec, policy) == policy = "monocolumn" /\ Len(rec) > 1
 
 \* "Some output fields contain separator": the joined line holds more separators than the record has gaps
-DelimWarn(rec, d, policy) == policy \in {"simple", "whitespace"} /\ CountOcc(JoinBy(NormRec(rec), d), d) + 1 # Len(rec)
+DelimWarn(rec, d, policy) == policy \in {"simple", "whitespace"} /\ CountOcc(JoinBy(NormRec(rec, d), d), d) + 1 # Len(rec)
 
 RECURSIVE WriteRecs(_, _, _, _)
 WriteRecs(T, d, policy, sep) == IF T = <<>> THEN <<>> ELSE LineOf(T[1], d, policy) \o sep \o WriteRecs(Tail(T), d, policy, sep)
@@ -75,7 +86,7 @@ FieldOk(f, d, policy) ==
       [] OTHER                 -> (Contains(f, Q) \/ HasSub(f, d) \/ HasBreak(f) \/ CleanOf(f, d))
 
 RecOk(rec, d, policy) ==
-    /\ ~HasNone(rec)
+    /\ ~HasNone(rec) /\ (\A k \in 1..Len(rec) : ~IsList(rec[k]))
     /\ \A k \in 1..Len(rec) : FieldOk(rec[k], d, policy)
     /\ CASE policy = "monocolumn" -> Len(rec) = 1
          [] policy = "whitespace" -> Len(rec) >= 1
@@ -149,11 +160,11 @@ Tight == (WDone /\ ~werr /\ ~Representable(T, WDlm, wpolicy)) =>
 \* lossy output is never silent
 LossIsLoud == (WDone /\ ~werr) =>
               /\ ((\E k \in 1..Len(T) : HasNone(T[k])) => fnone)
-              /\ (wpolicy \in {"simple", "whitespace"} /\ (\E k \in 1..Len(T) : \E m \in 1..Len(T[k]) : HasSub(Norm(T[k][m]), WDlm)) => fdelim)
+              /\ (wpolicy \in {"simple", "whitespace"} /\ (\E k \in 1..Len(T) : \E m \in 1..Len(T[k]) : HasSub(Norm(T[k][m], WDlm), WDlm)) => fdelim)
 
 \* for single-character delimiters the separator warning is exact (C14 "iff"); records with no field at all are outside (I8)
 DelimWarnExact == (WDone /\ ~werr /\ DlmB = 0 /\ wpolicy \in {"simple", "whitespace"} /\ (\A k \in 1..Len(T) : Len(T[k]) >= 1)) =>
-                  (fdelim <=> (\E k \in 1..Len(T) : \E m \in 1..Len(T[k]) : HasSub(Norm(T[k][m]), WDlm)))
+                  (fdelim <=> (\E k \in 1..Len(T) : \E m \in 1..Len(T[k]) : HasSub(Norm(T[k][m], WDlm), WDlm)))
 
 WCase == LET w == WriteTable(T, WDlm, wpolicy, lsep)
              rep == Representable(T, WDlm, wpolicy) IN
